@@ -230,7 +230,9 @@ func (b *Box) RunWrapped(wrapper []string, cwd string, env []string, timeout tim
 	argv := append(append(append([]string(nil), wrapper...), b.Spok), args...)
 	cmd := exec.CommandContext(cx, argv[0], argv[1:]...)
 	cmd.Dir = cwd
-	cmd.Env = append([]string{"HOME=" + b.Home, "PATH=/usr/local/bin:/usr/bin:/bin", "LANG=C", "TERM=dumb", "NO_COLOR=1"}, env...)
+	// PWD names the working directory the way the caller spelled it, as a shell would set it (a
+	// directory reached through a symbolic link keeps its logical name); callers may override it
+	cmd.Env = append([]string{"HOME=" + b.Home, "PATH=/usr/local/bin:/usr/bin:/bin", "LANG=C", "TERM=dumb", "NO_COLOR=1", "PWD=" + cwd}, env...)
 	attr := &syscall.SysProcAttr{Setpgid: true}
 	if b.Drop {
 		attr.Credential = &syscall.Credential{Uid: nobody, Gid: nobody, NoSetGroups: false, Groups: []uint32{}}
